@@ -15,7 +15,7 @@ def run(chk):
     rng, thorough = chk.rng, chk.tier == "thorough"
     proof_ok = chk.proofs()
     jobs = []
-    n = 96 if thorough else 24
+    n = 160 if thorough else 48
     for k in range(n):
         cfg = W.random_config(rng, {"raw_mode": 1} if k % 8 == 7 else None)
         relay = {"case": rng.choice(["keep", "keep", "random", "lower"]), "rewrite_id": rng.random() < 0.5}
@@ -25,7 +25,7 @@ def run(chk):
     # not refused by inflate but written to the tun device, so mis-reassembly is directly visible (with the real zlib it needs crafted packet
     # contents to pass); these runs are also the ones the Lean client and server models are diffed on.  Relays that change letter case get an
     # autodetected / Base32 downstream codec (a FORCED case-sensitive codec through such a relay is C11's recorded finding, not C01's business).
-    nz = 64 if thorough else 16
+    nz = 160 if thorough else 48
     for k in range(nz):
         cfg = W.random_config(rng, {"raw_mode": 1} if k % 8 == 7 else None)
         relay = {"case": rng.choice(["keep", "keep", "random", "lower"]), "rewrite_id": rng.random() < 0.5}
